@@ -1001,6 +1001,10 @@ def check_case(case, ctx):
                 if _has(b, 'constructor'):
                     continue
                 h = _heuristic_accessor_of(W, e['owner'], e['name'])
+                for ob, oe in zip(blocks, elems):       # a property block naming this method as its (setter)/(getter)
+                    if oe is not None and oe['kind'] == 'property' and oe['owner'] == e['owner'] and oe['name'] != v \
+                            and e['name'] in (_ann(ob, 'setter'), _ann(ob, 'getter')):
+                        h = oe['name']
                 if h is not None and h != v:
                     ctx.label('undecided:accessor-annotation-contradicts-name')
                     continue
@@ -1162,10 +1166,9 @@ def check_case(case, ctx):
                 if acc and ctx.known('accessor-annotation-on-non-method'):
                     ds = [x for x in ds if x not in acc]
             if ds:
-                if True:
-                    raise Violation('inapplicable-annotation-has-effect:' + '+'.join(sorted(bad)),
-                                    '%s on %s [%s] is outside the documented "applies to" yet changes %s\n%s'
-                                    % (bad, b['ident'], e['kind'], _describe(ds), render(b)))
+                raise Violation('inapplicable-annotation-has-effect:' + '+'.join(sorted(bad)),
+                                '%s on %s [%s] is outside the documented "applies to" yet changes %s\n%s'
+                                % (bad, b['ident'], e['kind'], _describe(ds), render(b)))
             if [x.text for x in res_all.diags] != [x.text for x in res_s.diags]:
                 ctx.label('inapplicable-diagnosed')
             else:
